@@ -230,3 +230,66 @@ func VerifC40_synStream_ids() {
 		}
 	}
 }
+
+// VerifC40_settings_then_send: a three-step client history on one stream, with the CLIENT's view of
+// its stream window kept in 64-bit arithmetic next to the server's (SPDY/3 2.6.8):
+//  pre-state: the server's send window for the stream equals the client's window T = S (any value in
+//             [-2^30, 2^30]: negative after an earlier shrink), SETTINGS_INITIAL_WINDOW_SIZE = I;
+//  1. SETTINGS(INITIAL_WINDOW_SIZE = V), I, V in [0, 2^30]: the client's window becomes T + (V - I) and
+//     may legitimately be negative ("the window size can become negative", the debt has to be paid
+//     off by WINDOW_UPDATEs before DATA may flow again);
+//  2. optionally WINDOW_UPDATE(stream, delta), delta 31 bits: T += delta if the server accepts it;
+//  3. the write scheduler is asked for the next frame with L >= 1 response bytes queued.
+// If any step is refused (connection / stream error) nothing is sent and the history ends. Otherwise
+// the DATA the scheduler hands to the writer must fit the client's stream window and the connection
+// window.
+func VerifC40_settings_then_send() {
+	sc := newConnC40()
+	const lim = int32(1 << 30)
+	S, C := vrt.I32("streamWindow"), vrt.I32("connWindow")
+	I, V := vrt.I32("oldInitialWindow"), vrt.I32("newInitialWindow")
+	vrt.Assume(S >= -lim && S <= lim && C >= 0 && I >= 0 && I <= lim && V >= 0 && V <= lim)
+	sc.initialWindowSize = I
+	sc.flow.n = C
+	st := &stream{id: 1, state: stateOpen}
+	st.flow.conn = &sc.flow
+	st.flow.n = S
+	sc.streams[1] = st
+	T := int64(S) // the client's own account of its stream window
+
+	err := sc.processSettings(&SettingsFrame{FlagIdValues: []SettingsFlagIdValue{{Id: SettingsInitialWindowSize, Value: uint32(V)}}})
+	if err != nil {
+		vrt.Cover("C40/settings-refused")
+		return
+	}
+	T += int64(V) - int64(I)
+
+	if vrt.Choose("windowUpdate", 2) == 1 {
+		delta := vrt.U32("delta")
+		vrt.Assume(delta&0x80000000 == 0)
+		if err := sc.processWindowUpdate(&WindowUpdateFrame{StreamId: 1, DeltaWindowSize: delta}); err != nil {
+			vrt.Cover("C40/window-update-refused")
+			return // stream error: the stream is reset, no DATA follows
+		}
+		T += int64(delta)
+	}
+
+	L := vrt.Range("datalen", 1, vrt.Param("L", 2))
+	ws := &sc.writeSched
+	ws.maxFrameSize = 16
+	q := &writeQueue{}
+	q.push(frameWriteMsg{stream: st, frame: &DataFrame{StreamId: 1, Data: vrt.Bytes("data", L)}})
+	ws.sq = map[uint32]*writeQueue{1: q}
+	wm, ok := ws.take()
+	if !ok {
+		vrt.Cover("C40/send-blocked")
+		return
+	}
+	df, isData := wm.frame.(*DataFrame)
+	vrt.Assert(isData, "C40/take-data")
+	if isData {
+		n := int64(len(df.Data))
+		vrt.Assert(n <= T, "C40/sent-within-client-window-after-settings")
+		vrt.Assert(n <= int64(C), "C40/sent-within-connection-window-after-settings")
+	}
+}
